@@ -271,12 +271,12 @@ theorem keeps_applyVoid (o : Ops V) (f : V → Except Err V) (inp out : String) 
 theorem keeps_scalarDivider (o : Ops V) (inp : String) (arg : V) (out : String) :
     Keeps (scalarDivider (σ := ATab V) o inp arg out) := by
   unfold scalarDivider
-  exact keeps_ite _ (keeps_throw _) (keeps_scalarVoid o _ inp _ out)
+  exact keeps_applyVoid o _ inp out
 
 theorem keeps_scalarRevDivider (o : Ops V) (inp : String) (arg : V) (out : String) :
     Keeps (scalarRevDivider (σ := ATab V) o inp arg out) := by
   unfold scalarRevDivider
-  exact keeps_bind (keeps_applyVoid o _ inp out) (fun _ => keeps_scalarVoid o _ out arg out)
+  exact keeps_applyVoid o _ inp out
 
 theorem keeps_shiftCircular (o : Ops V) (inp : String) (arg : V) (out : String) :
     Keeps (shiftCircular (σ := ATab V) o inp arg out) := by
